@@ -114,6 +114,24 @@ pub fn run(args: &Args, rep: &mut Report) {
             }
         }
     }
+    // real-world shapes from the repository's sample file and test sources
+    for (i, text) in corpus().iter().enumerate() {
+        if (i as u64) % args.of.max(1) != args.worker {
+            continue;
+        }
+        let Ok(ast) = lib_parse(text) else { continue };
+        if !denotable(&ast) {
+            rep.count("corpus_not_denotable_by_renderer");
+            continue;
+        }
+        let hol = if has_holiday_selector(&ast) { crate::gen::ctx::HolSpec::Country("FR".into()) } else { crate::gen::ctx::HolSpec::None };
+        let mut r = Rng::new(args.seed, 0xc0c0, i as u64);
+        rep.evaluations += 1;
+        match check(&ast, &hol, &mut r, 400) {
+            Ok(_) => rep.count("corpus_roundtrips_ok"),
+            Err(msg) => rep.violation("print_parse_roundtrip", format!("{text:?} [{}] (from the repository's sample/test sources): {msg}", hol.to_string()), json!({"expr": text, "holidays": hol.to_string()}), known::explained_by(&args.known, &ast)),
+        }
+    }
     rep.require("roundtrips_ok", 20_000);
 }
 
